@@ -501,6 +501,9 @@ impl HasSuffStat<DVector<f64>> for MvGaussian {
     }
 
     fn ln_f_stat(&self, stat: &Self::Stat) -> f64 {
+        if stat.n() == 0 {
+            return 0.0;
+        }
         let n = stat.n() as f64;
         let k = stat.sum_x().len() as f64;
         let x_bar = stat.sum_x() / n;
